@@ -178,7 +178,18 @@ def mk_enum(s_edt):
     s_dt = one(s_edt).S_DT[17]()
     enums = list()
     kwlist =['False', 'None', 'True'] + keyword.kwlist
-    for enum in many(s_edt).S_ENUM[27]():
+    first_filter = lambda sel: not one(sel).S_ENUM[56, 'succeeds']()
+    ordered = list()
+    enum = one(s_edt).S_ENUM[27](first_filter)
+    while enum and enum not in ordered:
+        ordered.append(enum)
+        enum = one(enum).S_ENUM[56, 'precedes']()
+    
+    if len(ordered) != len(many(s_edt).S_ENUM[27]()):
+        # the enumerators are not chained across R56, use them as they come
+        ordered = many(s_edt).S_ENUM[27]()
+    
+    for enum in ordered:
         if enum.Name in kwlist:
             enums.append(enum.Name + '_')
         else:
